@@ -389,6 +389,7 @@ pub enum C10Any {
     Store(C10Case),
     NuCommand(super::c19::C19Case),
     NuHandler(super::c15::C15Case),
+    NuGenerator(super::c18::C18Case),
 }
 
 pub fn strategy_any() -> BoxedStrategy<C10Any> {
@@ -396,6 +397,7 @@ pub fn strategy_any() -> BoxedStrategy<C10Any> {
         5 => strategy().prop_map(C10Any::Store),
         2 => super::c19::strategy().prop_map(C10Any::NuCommand),
         2 => super::c15::strategy().prop_map(C10Any::NuHandler),
+        1 => super::c18::strategy().prop_map(C10Any::NuGenerator),
     ]
     .boxed()
 }
@@ -421,6 +423,7 @@ pub fn run_case_any(case: &C10Any) -> Result<CaseInfo, Fail> {
         C10Any::Store(c) => run_case(c),
         C10Any::NuCommand(c) => nu_only_cas(super::c19::run_case(c), "nu-command-content"),
         C10Any::NuHandler(c) => nu_only_cas(super::c15::run_case(c), "nu-handler-content"),
+        C10Any::NuGenerator(c) => nu_only_cas(super::c18::run_case(c), "nu-generator-content"),
     }
 }
 
@@ -474,9 +477,9 @@ pub fn run(tier: Tier, seed: u64, replay: Option<&std::path::Path>) -> i32 {
         tier,
         seed,
         level: "exploration",
-        rule: "five cases in nine: 1..7 byte strings per case (empty, 1 byte, random, ASCII, invalid UTF-8, 8191/8192/8193, 16 KiB, 64 KiB+1, 300 KiB) each written through a generated entry point (cas_insert, cas_insert_sync, cas_writer, cas_writer_sync, POST /cas and POST /{topic} with Content-Length or chunked bodies of several chunk sizes or a Content-Length body written in two parts with a pause, Store::append after cas_insert_sync) and read back through another path (cas_read, cas_read_sync, GET /cas/{hash}), optional kill+reopen in between; a follower opened before the writes reads the content of every frame the instant it is delivered (appender optionally held after its broadcast via the verif sync point). Oracle: reported hash == SHA-256 computed by the harness, read-back bytes identical, empty HTTP body => frame without hash, POST /cas empty => 400. Non-trivial = content that is not valid UTF-8 or longer than 8 KiB. Distinct by (entry, read path, size) sequence hash. Four cases in nine are command (C19 generator) and handler (C15 generator) programs for the nu entry points: content piped into `.append` (text, binary, records), returned values, the trigger's own content read back through `.cas` and re-appended, explicit appends the store refuses; of those runs only the content clauses count here (every observable hash retrievable, hashing to itself, byte-equal to what the script produced).",
+        rule: "half of the cases: 1..7 byte strings per case (empty, 1 byte, random, ASCII, invalid UTF-8, 8191/8192/8193, 16 KiB, 64 KiB+1, 300 KiB) each written through a generated entry point (cas_insert, cas_insert_sync, cas_writer, cas_writer_sync, POST /cas and POST /{topic} with Content-Length or chunked bodies of several chunk sizes or a Content-Length body written in two parts with a pause, Store::append after cas_insert_sync) and read back through another path (cas_read, cas_read_sync, GET /cas/{hash}), optional kill+reopen in between; a follower opened before the writes reads the content of every frame the instant it is delivered (appender optionally held after its broadcast via the verif sync point). Oracle: reported hash == SHA-256 computed by the harness, read-back bytes identical, empty HTTP body => frame without hash, POST /cas empty => 400. Non-trivial = content that is not valid UTF-8 or longer than 8 KiB. Distinct by (entry, read path, size) sequence hash. Half of the cases are command (C19 generator), handler (C15 generator) and generator (C18 generator) programs for the nu entry points: content piped into `.append` (text, binary, records), returned values, the trigger's own content read back through `.cas` and re-appended, explicit appends the store refuses; of those runs only the content clauses count here (every observable hash retrievable, hashing to itself, byte-equal to what the script produced).",
         assumptions: vec![
-            "generator output content (.recv of generators) is verified by the C18 check".into(),
+            
             "content durability under crash is the C04 check".into(),
         ],
         extra: json!({}),
